@@ -162,6 +162,7 @@ def canary(ctx):
 
 
 _OPT_ENV = []
+_REENTRANT = {}
 
 
 def option_env():
@@ -182,7 +183,16 @@ def query_case(ctx, text, docs, options=False):
 
     canary(ctx)
     case = {"kind": "query", "text": text, "docs": docs}
-    if options:
+    if options == "reentrant":
+        # an environment whose function extension compiles (validate hook) and evaluates (call) queries with the same
+        # environment while a compile / an evaluation is under way
+        from .c10 import reentrant_env
+
+        if "re" not in _REENTRANT:
+            _REENTRANT["re"] = reentrant_env()
+        case["options"] = "reentrant"
+        jsonpath = _EnvFacade(jsonpath, _REENTRANT["re"])
+    elif options:
         case["options"] = True
         jsonpath = _EnvFacade(jsonpath, option_env())
     ctx.evaluation()
@@ -478,6 +488,10 @@ def run_workload(spec, ctx):
             query_case(ctx, text, hdocs)
         for text in ("/n", "/arr/0", "/o/k/0", "/arr/-", "/n/0", "/arr/1/x"):
             pointer_case(ctx, text, hdocs)
+        for inner in ("$[?@.a]", "$..*", "$[?sub(@, '$.a') > 0]", "$[", "$[?count(1)]", "$[?@.a =~ /(/]"):
+            for text in ("$[?sub(@, %s) >= 0]", "$..[?sub(@.a, %s) == 1 || @.b]", "$[?sub($, %s) > sub(@, %s)]"):
+                q_ = "'" + inner.replace("\\", "\\\\").replace("'", "\\'") + "'"
+                query_case(ctx, text.replace("%s", q_), ROOT_DOCS + [[{"a": 1, "b": [1]}, {"a": {"a": 2}}]], options="reentrant")
         for text in DIRECTED_QUERIES:
             query_case(ctx, text, ROOT_DOCS + [[{"a": v, "b": w} for v in (1, "x", None, [1], {"k": 1}, True, 1.5, "abc") for w in ("abc", [1], {"x": 1}, 2)]])
         for text in ("/" + "1" * 4301, "/a/-" + "1" * 4301, "0+" + "1" * 4301, "1" * 4301, "1" * 4301 + "#", "/#" + "1" * 4301, "/#abc", "/a\\", "/\\u00e9", "/\\ud83d", "/\\", "\\", "/%", "/%zz", "/~", "/~2", "a", " /a", "/" + "9" * 30, "/-" + "9" * 30, "/#", "/#-1", "/#1e2", "/a/#", "0#", "0", "1#", "0+1", "0-1", "0+10", "0+99999999999999999999999", "/\x00", "/퟿"):
@@ -557,7 +571,7 @@ def _replay(case, ctx):
         canary(ctx)
         return
     if kind == "query":
-        query_case(ctx, case["text"], [case["doc"]] if "doc" in case else case["docs"], options=bool(case.get("options")))
+        query_case(ctx, case["text"], [case["doc"]] if "doc" in case else case["docs"], options=case.get("options") or False)
     elif kind in ("pointer", "relative"):
         pointer_case(ctx, case["text"], [case["doc"]] if "doc" in case else case.get("docs", ROOT_DOCS))
     else:
